@@ -30,7 +30,8 @@ CLAIMS["C08"] = (
 
 CLAIMS["C07"] = (
     "CFG path rules (must-pass-after / must-pass-before / branch-edge dominance) on every StorageSet::addValues and points-merge site, classification of every write to `needed`, "
-    "transitive member write sets (R-EFFECT), closed-form extent comparison (R-EXTENT), sibling agreement of buildUpdateMap",
+    "transitive member write sets (R-EFFECT), closed-form extent comparison (R-EXTENT), sibling agreement of buildUpdateMap, sibling agreement of membership guards of candidate appends, "
+    "subscript bounds of output-dependent strips",
     "Static rule discharge over all five grid classes and every template instantiation: values are merged before the index set they are ordered by and the index merge follows on every path; "
     "an overwriting reload replaces the values exactly when nothing is needed; every assignment to the needed set is empty, a difference with the loaded set, or made where no points are loaded; "
     "candidate collectors append only indices tested missing from the loaded set; clearRefinement writes exactly needed/updated_*, refinement entry points never write points, values or "
@@ -41,7 +42,7 @@ CLAIMS["C07"] = (
 
 CLAIMS["C06"] = (
     "writer/reader token-sequence agreement (AST linearisation of every serialisation routine into nested (element type, data member) sequences per i/o mode, template constants folded), "
-    "member coverage, enum codec totality/injectivity, section-tag agreement, unconditional rebuild of derived state",
+    "member coverage, enum codec totality/injectivity, section-tag agreement, unconditional rebuild of derived state, direction agreement of serialised forward lists",
     "Static rule discharge over 11 writer/reader pairs x 2 modes: both sides transfer the same members, in the same order, with the same element types, under the same section guards "
     "(flag written from the condition that guards the section); every data member of the grid classes is serialised or rebuilt by the reader from restored data; rule codecs cover every "
     "enumerator once; top-level tags written are tags the reader accepts and the same members sit under them; state that is not stored (per-tensor point sets, wrappers, sequences) is rebuilt "
@@ -155,7 +156,8 @@ CLAIMS["C10"] = (
 
 CLAIMS["C05"] = (
     "R-SYMBOLIC by partial evaluation: the loop-free 1-D basis routines of every instantiated local rule are turned into sympy closed forms (template constants folded, point class concrete, "
-    "x symbolic) and the derivative identities are discharged exactly; plus argument agreement, row-major layout of gradient accumulation and the chain-rule obligations shared with C10",
+    "x symbolic) and the derivative identities are discharged exactly; folding of the per-basis gradient loop nests for 1-4 dimensions against the product rule (cached 1-D values as "
+    "tagged symbols); plus argument agreement, row-major layout of gradient accumulation and the chain-rule obligations shared with C10",
     "Static rule discharge: for all 4 local polynomial rules x point classes 0..12 the derivative routines (quadratic, cubic, support map, assembled evalSupport/diffSupport for orders 1-3) "
     "are the derivatives of the value routines; the high-order paths receive the same arguments; every gradient accumulation in the tree walk uses the documented outputs x dimensions "
     "layout with matching indices; the chain rule under linear transforms is applied with the Jacobian of the inverse map to the matching dimension for every rule family.",
